@@ -663,17 +663,18 @@ def collectTags : List BTree → Cat → R Cat
     else collectTags r c
 
 /-- `collectRules` / `buildRule` / `Catalog.AddEnum` (core/compile_core_rules.go): the top-level ENUM directives of the
-expanded forest that have a body are registered in source order; an ENUM without a name and a second ENUM of one name are
-refused (`seen` = the names registered so far).  The check of the body itself is the enum library's (outside the model:
+expanded forest are registered in source order; an ENUM without a name, an ENUM without a body and a second ENUM of one
+name are refused (`seen` = the names registered so far).  The check of the body itself is the enum library's (outside the model:
 every body is taken to be well formed).  This stage runs before `collectTags`; it is kept apart from `compile` (the
 composed model `Project.process` and the `build` op of the driver run it first). -/
 def checkRules : List BTree → List Bytes → R Unit
   | [], _ => .ok ()
   | t :: r, seen =>
     let d := t.dir
-    if d.kind == .Enum && d.body.isSome then
+    if d.kind == .Enum then
       let n := d.param "Name"
       if n.isEmpty then fail d (.required "Name")
+      else if d.body.isNone then fail d .emptyBody    -- F70: an ENUM without a body was dropped silently
       else if seen.contains n then fail d .duplicateNames
       else checkRules r (seen ++ [n])
     else checkRules r seen
